@@ -22,6 +22,7 @@ import (
 	"encoding/base64"
 	"fmt"
 	"strconv"
+	"strings"
 	"sync"
 	"time"
 
@@ -689,6 +690,10 @@ func (e *MetaCDC) validCreateRequest(req *request.CreateRequest) error {
 			if len(db) > e.config.MaxNameLength {
 				return servererror.NewClientError(fmt.Sprintf("the db name length exceeds %d characters, %s", e.config.MaxNameLength, db))
 			}
+			if strings.Contains(db, ".") {
+				// the task bookkeeping joins database and collection with a dot
+				return servererror.NewClientError(fmt.Sprintf("the db name should not contain the dot, %s", db))
+			}
 			err = e.checkCollectionInfos(infos)
 			if err != nil {
 				break
@@ -763,6 +768,10 @@ func (e *MetaCDC) checkCollectionInfos(infos []model.CollectionInfo) error {
 		}
 		if len(info.Name) > e.config.MaxNameLength {
 			longNames = append(longNames, info.Name)
+		}
+		if strings.Contains(info.Name, ".") {
+			// the task bookkeeping joins database and collection with a dot
+			return servererror.NewClientError(fmt.Sprintf("the collection name should not contain the dot, %s", info.Name))
 		}
 		for positionChannel := range info.Positions {
 			if !cdcreader.IsVirtualChannel(positionChannel) {
